@@ -28,7 +28,7 @@ def _digest_worker(args):
     pid, run_seed, tier = args
     mod = runner.prop_module(pid)
     spec = mod.spec_from_seed(run_seed, tier)
-    res = mod.execute(spec)
+    res = runner.isolated_execute(mod, spec)
     return (pid, run_seed, res.get("digest"), len(res.get("violations", [])), res.get("harness_error"))
 
 
